@@ -1,5 +1,5 @@
 use crate::context::{ElementMap, TransformerContext};
-use crate::element::SvgElement;
+use crate::element::{comment_text, SvgElement};
 use crate::errors::{Result, SvgdxError};
 use crate::events::{tagify_events, InputList, OutputEvent, OutputList, Tag};
 use crate::expression::{eval_attr, eval_condition};
@@ -755,7 +755,10 @@ impl Transformer {
                     env!("CARGO_PKG_VERSION")
                 )),
                 OutputEvent::Text(indent),
-                OutputEvent::Comment(format!(" Config: {:?} ", self.context.config)),
+                OutputEvent::Comment(comment_text(&format!(
+                    "Config: {:?}",
+                    self.context.config
+                ))),
             ])
             .write_to(writer)?;
         }
